@@ -825,6 +825,8 @@ def rule_h(ctx):
 
 
 def run(ctx):
+    from .common import rule_abs_tolerance
+    rule_abs_tolerance(ctx, "C04.i", [f for k in ctx.model.mod(WAS).classes.values() for f in k.methods.values()], "mass balance and reported cost must hold for masses of any magnitude")
     rule_a(ctx)
     rule_b(ctx)
     rule_f(ctx)
